@@ -43,7 +43,7 @@ def model_query(case, impl_res):
     q = {k: v for k, v in case.items() if k not in ('tdtype', 'rs', 'gscale', 'countkind', 'reqkind', 'scdtype')}
     q['times'] = [t * case.get('gscale', 1) for t in case['times']]
     q['op'] = 'select'
-    if 'ok' in impl_res:
+    if 'ok' in impl_res and all(x >= 0 for x in impl_res['ok']['out']):
         q['impl'] = impl_res['ok']['out']
         q['impl_kept'] = impl_res['ok']['kept']
     return q
@@ -59,6 +59,8 @@ def judge(case, impl_res, ans):
         return 'SPEC: real code raised %s (%s) at %s on an in-domain input' % (
             impl_res['raised'], impl_res['msg'], impl_res['where'])
     ok = impl_res['ok']
+    if any(x < 0 or x >= len(case['times']) for x in ok['out']):
+        return 'SPEC: the selection contains spike ids outside 0..n_spikes-1: %s' % [x for x in ok['out'] if x < 0 or x >= len(case['times'])][:5]
     if m['impl_kept_ok'] is not True:
         return 'SPEC: kept chunks are not whole grid intervals at a regular stride / too many'
     if m['impl_spec'] is not True:
